@@ -546,6 +546,7 @@ func main() {
 		die("usage: sim ctl|worker|replay|hashes ...")
 	}
 	o := parse(os.Args[2:])
+	props.InstallShrinkers()
 	switch os.Args[1] {
 	case "ctl":
 		runCtl(o)
